@@ -53,7 +53,34 @@ def runSession (cfg : Cfg) (asts : List String) : Except String (List String) :=
         | .error w => throw w
   pure res
 
+/-- was the step budget exhausted during the input that led to `st`? (`evalI` counts a step, then refuses when the
+count BEFORE it had reached the budget: the budget ran out iff the counter went past it) -/
+def deadlineFired (st : St) : Bool :=
+  match st.cfg.deadlineAfter with
+  | some k => st.steps > k
+  | none => false
+
+/-- `runSession` with the eval suite's extra field `t=<0|1>` (step budget exhausted during this input) -/
+def runSessionT (cfg : Cfg) (asts : List String) : Except String (List String) := do
+  let mut st := initState cfg
+  let mut res : List String := []
+  for a in asts do
+    if a == "P" then
+      res := res ++ ["P"]
+    else
+      match parseAst a with
+      | none => throw "ast-parse"
+      | some prog =>
+        let (st', r) := runInput st prog
+        st := st'
+        match r with
+        | .ok o => res := res ++ [o.render ++ ";t=" ++ (if deadlineFired st' then "1" else "0")]
+        | .error w => throw w
+  pure res
+
 def cfgObs (c : Case) (name : String) : List String := (c.cfgs.lookup name).getD []
+
+def deadlineHit (obs : List String) : Bool := obs.any fun o => o.endsWith ";t=1"
 
 /-- the part of an input's observation the language-level properties speak about: output, value,
 error flag, panic kind (not the dump of the globals) -/
@@ -97,8 +124,14 @@ def isFnLit : Node → Bool
   | _ => false
 
 /-- a function literal reading `name` from outside (not one of its parameters) -/
+def isLoopOver (name : String) : Node → Bool
+  | .forE (.inf op (.ident n) _) _ => n == name && (op == "ASSIGN" || op == "DEFINE")
+  | _ => false
+
+/-- a function literal reading `name` from outside: not one of its parameters, and not the variable of a counted loop
+of its own (the function that CONTAINS the loop is not a callee reading the loop's variable) -/
 def fnMentionsFree (name : String) : Node → Bool
-  | .fn _ ps _ _ _ body => !ps.contains name && mentions [name] body
+  | .fn _ ps _ _ _ body => !ps.contains name && !(subnodes body).any (isLoopOver name) && mentions [name] body
   | _ => false
 
 def loopVariableInvisibleToCallee (asts : List Node) : Bool :=
@@ -120,25 +153,29 @@ def runCase (inp obs : String) : CaseResult :=
   | some c =>
     let a := cfgObs c "A"; let b := cfgObs c "B"; let cc := cfgObs c "C"; let d := cfgObs c "D"
     let base : Cfg := { maxDepth := c.maxDepth, deadlineAfter := c.steps }
-    let m1 := runSession { base with cacheOn := true } c.asts
-    let m0 := runSession { base with cacheOn := false } c.asts
+    let m1 := runSessionT { base with cacheOn := true } c.asts
+    let m0 := runSessionT { base with cacheOn := false } c.asts
+    -- a run cut by the step budget is cut at a point that depends on how the steps were spent (a cache hit and a
+    -- register save steps): such a case is no evidence about C01/C04/C05 either way
+    let cut := deadlineHit a || deadlineHit b || deadlineHit cc || deadlineHit d
     let anyErr := a.any fun o => (o.splitOn ";e=1;").length > 1
     let tags := [if anyErr then "ends-in-error" else "no-error", if c.asts.length > 1 then "multi-input" else "single-input"]
+      ++ (if cut then ["step-budget-exhausted"] else [])
     let stmtCfg : Bool := match c.prop with
-      | "C04" => visible a == visible cc && visible b == visible d
-      | "C05" => visible a == visible b && visible cc == visible d
+      | "C04" => cut || (visible a == visible cc && visible b == visible d)
+      | "C05" => cut || (visible a == visible b && visible cc == visible d)
       | "C07" => !(hasGoPanic a || hasGoPanic b || hasGoPanic cc || hasGoPanic d)
       | _ => true
     match m1, m0 with
     | .ok r1, .ok r0 =>
       let model := "B:" ++ "/".intercalate r1 ++ " @@ D:" ++ "/".intercalate r0
-      let stmtImpl := stmtCfg && (if c.prop == "C01" then visible a == visible r0 else true)
+      let stmtImpl := stmtCfg && (if c.prop == "C01" then cut || visible a == visible r0 else true)
       let stmtModel := match c.prop with
-        | "C04" => visible r1 == visible r0
+        | "C04" => cut || visible r1 == visible r0
         | "C07" => !(hasGoPanic r1 || hasGoPanic r0)
         | _ => true
       { model := model, agree := b == r1 && d == r0, stmtModel := stmtModel, stmtImpl := stmtImpl, tags := tags,
-        nontrivial := !a.all (· == "P"),
+        nontrivial := !a.all (· == "P") && !cut,
         klass := if c.prop == "C05" && !stmtImpl then c05Class c else "" }
     | .error w, _ | _, .error w =>
       { model := "declined:" ++ w, agree := false, stmtModel := true, stmtImpl := stmtCfg, unmodelled := true,
